@@ -24,6 +24,9 @@ def run(ck):
     mon = window.WindowMonitor(ck)
     mons = [mon]
     base = ck.seed * 1000003 + 41
+    for k_ in range(0, 8 if not ck.thorough() else 40):
+        if ck.mine(k_ + 2):
+            direct_replays(ck, base + 8000 + k_, k_)
     for r_, n_ch in enumerate((340,) if not ck.thorough() else (340, 400, 90, 341, 512)):
         if ck.mine(r_ + 1):
             mass_delete(ck, base + 9000 + r_, n_ch)
@@ -274,8 +277,57 @@ def mass_delete(ck, seed, n_children):
         ck.count('mass_delete.copies_answered_identically')
 
 
+def direct_replays(ck, seed, k):
+    """The window rule at the IkeSa entry point itself (IkeSa.process_message, what the repository's own tests call): every request the peer has sent so far on
+    this IKE_SA - the IKE_SA_INIT request included, which the controller would never route there - is fed again after k further exchanges. Only the copy of the
+    immediately preceding request may be answered (with the stored octets); every older one is dropped without a reply and without any change."""
+    sim, a, b = S.make_pair(seed, dpd=6000, lifetime=36000)
+    sim.case = {'family': 'direct-replays', 'exchanges_after_the_handshake': k}
+    sim.acquire(a, 0)
+    sim.drain()
+    ra = [x for x in a.ctl.ike_sas if x.state.name == 'ESTABLISHED']
+    rb = [x for x in b.ctl.ike_sas if x.state.name == 'ESTABLISHED']
+    if not ra or not rb:
+        return
+    for j in range(k):
+        ra[0].start_dpd_at = sim.clock.t - 1
+        a.step('tick')
+        sim.drain()
+    reqs = [w[3] for w in sim.wire if w[1] == str(a.addrs[0]) and not w[3][19] & 0x20]       # every request A sent, oldest first
+    resps = {bytes(w[3][20:24]) + bytes([w[3][18]]): w[3] for w in sim.wire if w[1] == str(b.addrs[0]) and w[3][19] & 0x20}
+    sa = rb[0]
+    prev = S.W.cur
+    S.W.cur = b
+    try:
+        for i, d in enumerate(reqs):
+            last = i == len(reqs) - 1
+            before = (sa.peer_msg_id, sa.my_msg_id, sa.state.name, len(sa.child_sas))
+            try:
+                out = sa.process_message(bytes(d))
+            except Exception as ex:
+                out = ('raised', type(ex).__name__)
+            after = (sa.peer_msg_id, sa.my_msg_id, sa.state.name, len(sa.child_sas))
+            ck.count('direct_replays.copies_fed')
+            kind = {34: 'IKE_SA_INIT', 35: 'IKE_AUTH', 36: 'CREATE_CHILD_SA', 37: 'INFORMATIONAL'}.get(d[18], str(d[18]))
+            if last:
+                want = resps.get(bytes(d[20:24]) + bytes([d[18]]))
+                if out is None or isinstance(out, tuple) or bytes(out) != bytes(want or b''):
+                    ck.violation(f'copy-of-the-preceding-request-not-answered-with-the-stored-octets:direct:{kind}', {'got': None if out is None else (out if isinstance(out, tuple) else len(out))}, sim.case)
+                else:
+                    ck.count('direct_replays.preceding_request_answered_identically')
+            elif out is not None or after != before:
+                ck.violation(f'request-outside-the-window-had-an-effect:direct:{kind}', {'age_in_exchanges': len(reqs) - 1 - i, 'replied': out is not None and not isinstance(out, tuple),
+                                                                                              'raised': out if isinstance(out, tuple) else None, 'before': before, 'after': after}, sim.case)
+            else:
+                ck.count('direct_replays.older_request_dropped')
+    finally:
+        S.W.cur = prev
+    ck.nontrivial(('direct-replays', k))
+
+
 def verdict(ck):
     c = ck.counters
+    ck.floor('older requests fed again to the IkeSa entry point and dropped', c['direct_replays.older_request_dropped'], 20)
     ck.floor('requests closing hundreds of CHILD_SAs whose copies were answered identically', c['mass_delete.copies_answered_identically'], 1)
     ck.floor('answered exchanges on one long-lived IKE_SA', c['long_lived.exchanges'], 250)
     ck.floor('requests of that IKE_SA delivered twice', c['long_lived.requests_delivered_twice'], 30)
